@@ -1740,6 +1740,15 @@ func (s *Service) runPipeline(rp *runnablePipeline) error {
 		rp.t.Kill(cerrors.FatalError(cerrors.Errorf("could not mark pipeline %s as running: %w", rp.pipeline.ID, err)))
 	}
 	close(startupDone)
+	if err != nil {
+		// Do not report the failed start before the run it killed has been
+		// wound down and finalized by its cleanup goroutine. Returning at once
+		// lets the caller act on a run that is still shutting down: the
+		// recovering run's cleanup writes Degraded next, and a Start admitted
+		// on that status builds a second run while this one still holds the
+		// connectors.
+		_ = rp.t.Wait()
+	}
 	return err
 }
 
